@@ -183,6 +183,10 @@ pub struct Incarnation {
     pub result: Option<Result<(), String>>,
     /// true if this incarnation was ended by a simulated crash rather than shutdown/exit
     pub crashed_by_simulator: bool,
+    /// after `exit` the server was found idle in `recv` again (it accepted another message)
+    /// instead of terminating
+    #[serde(default)]
+    pub still_receiving_after_exit: bool,
 }
 
 pub fn message_json(m: &Message) -> Value {
@@ -223,7 +227,7 @@ impl Session {
             c2s: Some(c2s_tx),
             s2c: s2c_rx,
             handle: Some(handle),
-            inc: Incarnation { hash_seed, steps: vec![], died: None, died_at_step: None, result: None, crashed_by_simulator: false },
+            inc: Incarnation { hash_seed, steps: vec![], died: None, died_at_step: None, result: None, crashed_by_simulator: false, still_receiving_after_exit: false },
             dead: false,
         };
         let folders = match ws_folder {
@@ -361,6 +365,19 @@ impl Session {
             let finished = self.handle.as_ref().map(|h| h.is_finished()).unwrap_or(true);
             if finished || !connected {
                 break;
+            }
+            if !crash {
+                // after `exit` the server has to terminate. A capacity-0 send succeeds only if it is
+                // (again) blocked in `recv`: then it did not terminate, and the connection is cut so
+                // that the run can end.
+                let accepted = match self.c2s.as_ref() {
+                    Some(tx) => tx.try_send(Message::Notification(Notification { method: "$/simplc/afterExit".into(), params: Value::Null })).is_ok(),
+                    None => false,
+                };
+                if accepted {
+                    self.inc.still_receiving_after_exit = true;
+                    self.c2s = None;
+                }
             }
             std::thread::yield_now();
         }
